@@ -1210,6 +1210,9 @@ def classify_key(k: ast.expr, va: str, kw: str) -> Tuple[str, str]:
         return 'bad', 'keyword arguments are not part of the key'
     if isinstance(k, ast.Call) and isinstance(k.func, ast.Name) and k.func.id in BAD_WRAPPERS:
         return 'bad', f'the key is {k.func.id}(...) of the arguments: distinct arguments can collide / equal ones differ'
+    if isinstance(k, ast.Call) and (norm(k.func).split('.')[-1] == '_make_key'):
+        return 'bad', ('functools._make_key flattens kwargs.items() in call order: f(a=0, b=1) and f(b=1, a=0) get different '
+                       'entries (and are computed twice)')
     if isinstance(k, ast.BinOp) and isinstance(k.op, ast.Add):
         return 'bad', ('positional and keyword parts are concatenated into one flat tuple: the boundary is lost, so a trailing '
                        'positional (name, value) pair collides with the keyword name=value')
